@@ -1114,3 +1114,235 @@ def run_unschedule(case, stats):
         stats.count('unsched_stale_event')
         return True
     return False
+
+
+# ---------------------------------------------------------------------------
+# kind = 'register': EndpointPresence.register_* of a new container (own
+# session) while nodes of older containers live on under other sessions
+# ---------------------------------------------------------------------------
+
+class _RegClock(object):
+    """Stand-in for `time` inside treadmill.presence: sleep() advances the
+    virtual clock and lets the harness expire old sessions that are due."""
+
+    def __init__(self, on_advance):
+        import time as _time
+        self._real = _time
+        self.now = 0
+        self.sleeps = 0
+        self._on_advance = on_advance
+
+    def time(self):
+        return 1578268800.0 + self.now
+
+    def sleep(self, seconds):
+        self.sleeps += 1
+        self.now += seconds
+        self._on_advance()
+
+    def __getattr__(self, name):
+        return getattr(self._real, name)
+
+
+def run_register(case, stats):
+    """case: {'kind': 'register', 'me': h, 'call': 'register'|'seq'|
+              'identity'|'running'|'endpoints', 'eps': [..],
+              'ident': [g, n]|None,
+              'old': [{'host': h, 'same_port': bool,
+                       'end': None | ['t', seconds] | ['op', k]}, ...],
+              'held': {'running': j|None, 'ident': j|None,
+                       'eps': [j|None, ...]}}
+    old[j] is the session of an earlier container (host h) that still owns the
+    nodes listed in 'held' and goes away at virtual time `seconds` (checked at
+    every time.sleep) or right before the k-th ZooKeeper call of the new
+    session, or never."""
+    from treadmill import exc as tm_exc
+
+    tree = fakezk.Tree(lambda: 1000)
+    admin = fakezk.Client(tree)
+    for path in ('/running', '/endpoints', '/identity-groups'):
+        admin.ensure_path(path)
+    me = case['me'] % len(HOSTNAMES)
+    myname = HOSTNAMES[me]
+    app_name = instance_name(0)
+    manifest = {'name': app_name, 'endpoints': _endpoint_list(case['eps'], 7)}
+    if case['ident'] is not None:
+        manifest['identity_group'] = case['ident'][0]
+        if case['ident'][1] is not None:
+            manifest['identity'] = case['ident'][1]
+    paths = expected_paths(app_name, manifest)
+    neps = len(manifest['endpoints'])
+    run_path = paths[0]
+    ep_paths = paths[1:1 + neps]
+    id_paths = paths[1 + neps:]
+
+    olds = []
+    for spec in case['old']:
+        client = fakezk.Client(tree)
+        olds.append({'client': client, 'spec': spec,
+                     'name': HOSTNAMES[spec['host'] % len(HOSTNAMES)]})
+    same_content = False
+    foreign_at_start = set()
+
+    def hold(idx, path, data, mine):
+        nonlocal same_content
+        if idx is None or not olds:
+            return
+        old = olds[idx % len(olds)]
+        old['client'].create(path, data.encode(), ephemeral=True,
+                             makepath=True)
+        foreign_at_start.add(path)
+        if data == mine:
+            same_content = True
+
+    held = case['held']
+    if held['running'] is not None and olds:
+        old = olds[held['running'] % len(olds)]
+        hold(held['running'], run_path, old['name'], myname)
+    for pos, path in enumerate(ep_paths):
+        idx = held['eps'][pos % len(held['eps'])] if held['eps'] else None
+        if idx is None or not olds:
+            continue
+        old = olds[idx % len(olds)]
+        port = manifest['endpoints'][pos]['real_port']
+        if not old['spec']['same_port']:
+            port += 100 + idx
+        hold(idx, path, '%s:%d' % (old['name'], port),
+             '%s:%d' % (myname, manifest['endpoints'][pos]['real_port']))
+    if id_paths and held['ident'] is not None and olds:
+        old = olds[held['ident'] % len(olds)]
+        hold(held['ident'], id_paths[0],
+             json.dumps({'host': old['name'], 'app': app_name},
+                        sort_keys=True),
+             json.dumps({'host': myname, 'app': app_name}, sort_keys=True))
+
+    mine = fakezk.Client(tree)
+    state = {'ops': 0}
+
+    def expire_due(kind):
+        for old in olds:
+            end = old['spec']['end']
+            if end is None or old['client'].expired or end[0] != kind:
+                continue
+            due = clock.now >= end[1] if kind == 't' \
+                else state['ops'] >= end[1]
+            if due:
+                tree.expire(old['client'])
+                stats.count('register_old_session_expired_during_call')
+
+    clock = _RegClock(lambda: expire_due('t'))
+
+    def hook(_opname, _path):
+        state['ops'] += 1
+        expire_due('op')
+
+    mine.op_hook = hook
+    expire_due('t')       # sessions due at t=0 are already gone
+    start = len(tree.audit)
+
+    def judge(scope, what):
+        """`what` returned normally: its nodes are ours, ephemeral, alive."""
+        for path in scope:
+            node = tree.nodes.get(path)
+            if node is None:
+                raise Violation(
+                    'c17.register.missing',
+                    '%s on %s returned normally at t=%ds but %s does not '
+                    'exist' % (what, myname, clock.now, path))
+            if not node.owner:
+                raise Violation(
+                    'c17.register.not-own-ephemeral',
+                    '%s on %s returned normally but %s is not ephemeral' % (
+                        what, myname, path))
+            if node.owner != mine.sid:
+                owner = [old for old in olds
+                         if old['client'].sid == node.owner]
+                raise Violation(
+                    'c17.register.adopted-foreign-node',
+                    '%s on %s returned normally at t=%ds but %s is owned by '
+                    'session %x (%s, still alive: %s), not by the registering '
+                    'session %x: it did not wait for the node to go away' % (
+                        what, myname, clock.now, path, node.owner,
+                        owner[0]['name'] if owner else 'persistent node',
+                        bool(owner) and not owner[0]['client'].expired,
+                        mine.sid))
+
+    obj = presence.EndpointPresence(mine, manifest, hostname=myname,
+                                    appname=app_name)
+    call = case['call']
+    plan = {
+        'register': [('register', id_paths + [run_path] + ep_paths)],
+        'seq': [('register_identity', id_paths),
+                ('register_running', [run_path]),
+                ('register_endpoints', ep_paths)],
+        'identity': [('register_identity', id_paths)],
+        'running': [('register_running', [run_path])],
+        'endpoints': [('register_endpoints', ep_paths)],
+    }[call]
+    registered = []
+    gave_up = None
+    saved_time = presence.time
+    presence.time = clock
+    try:
+        for method, scope in plan:
+            try:
+                getattr(obj, method)()
+            except tm_exc.ContainerSetupError as err:
+                gave_up = (method, str(err))
+                break
+            judge(scope, method + '()')
+            registered.extend(scope)
+    finally:
+        presence.time = saved_time
+        mine.op_hook = None
+    stats.count('register_call_' + call)
+
+    for opname, path, sid, owner in tree.audit[start:]:
+        if sid != mine.sid or opname == 'expire':
+            continue
+        if opname in ('set', 'delete', 'set_acls') and owner and \
+                owner != mine.sid:
+            raise Violation(
+                'c17.register.foreign-%s' % opname,
+                'registering session %x did %s %s which is owned by %x' % (
+                    mine.sid, opname, path, owner))
+        if opname == 'create' and path in paths and owner != mine.sid:
+            raise Violation(
+                'c17.register.not-own-ephemeral',
+                'create %s by the registering session: owner %x' % (
+                    path, owner))
+
+    if gave_up is not None:
+        # the loop may only give up on a node that another session held for
+        # the whole 13 x 5 s
+        stats.count('register_gave_up')
+        if clock.sleeps < 13:
+            raise Violation(
+                'c17.register.gave-up-early',
+                '%s raised ContainerSetupError(%s) after %d sleeps' % (
+                    gave_up[0], gave_up[1], clock.sleeps))
+    else:
+        stats.count('register_returned')
+
+    # every other session goes away: what was registered must survive
+    for old in olds:
+        if not old['client'].expired:
+            tree.expire(old['client'])
+    for path in registered:
+        node = tree.nodes.get(path)
+        if node is None or node.owner != mine.sid:
+            raise Violation(
+                'c17.register.lost-after-expiry',
+                '%s was reported registered on %s but is gone once the other '
+                'sessions expired' % (path, myname))
+
+    waited = clock.sleeps > 0
+    if waited:
+        stats.count('register_waited')
+    if same_content:
+        stats.count('register_same_content_foreign_node')
+    if waited and gave_up is None:
+        stats.count('register_took_over_after_wait')
+    scope_all = [p for _m, scope in plan for p in scope]
+    return bool(waited or
+                (same_content and foreign_at_start & set(scope_all)))
